@@ -404,8 +404,20 @@ class Sim:
                 ptr = self.index_ptr(st, ptr, iv.val)
             elif k == "cindex":
                 if p["from_end"]:
-                    raise Unsupported("from_end index")
-                ptr = self.index_ptr(st, ptr, p["offset"])
+                    # `[.., last]` patterns: offset counted from the end of the (concrete-length) slice / array
+                    if ptr.path and ptr.path[-1][0] == "sl":
+                        n = ptr.path[-1][2] - ptr.path[-1][1]
+                    else:
+                        tgt = self.expand(st, self.read(st, ptr))
+                        if isinstance(tgt, Array):
+                            n = len(tgt.elems)
+                        elif isinstance(tgt, Opaque) and tgt.kind == "List":
+                            n = len(tgt.data[0])
+                        else:
+                            raise Unsupported("from_end index into %r" % (tgt,))
+                    ptr = self.index_ptr(st, ptr, n - p["offset"])
+                else:
+                    ptr = self.index_ptr(st, ptr, p["offset"])
             else:
                 raise Unsupported("projection " + k)
         return ptr
